@@ -279,6 +279,20 @@ C07_Clause(c, aux, o) ==
             (flagIn /\ Clean(m) /\ m.app = "ok" /\ m.seq = 1 /\ pre.st \in {"inSession", "pending(inSession)"}
                 /\ aux.resetSent /\ pre.nIn = 1 /\ pre.nOut = 2 /\ pre.q = 0 /\ pre.inbuf = 0) =>
                     (post.ep = pre.ep /\ post.nIn = 2 /\ post.nOut = 2 /\ Len(lo) = 0)
+      [] c = "inSessionResetHonoured" ->   \* a reset requested by the peer while logged on (its Logon is number 1 and
+                                           \* carries the flag, and it is not the echo of a reset of ours)
+            (flagIn /\ Clean(m) /\ m.app = "ok" /\ m.seq = 1 /\ pre.st \in {"inSession", "pending(inSession)"}
+                /\ ~aux.resetSent /\ pre.q = 0 /\ pre.inbuf = 0) =>
+                    /\ post.ep # pre.ep /\ post.nIn = 2
+                    /\ o.cfg.role = "acc" => (Len(lo) = 1 /\ lo[1].seq = 1 /\ lo[1].x = "Y" /\ post.nOut = 2)
+                    /\ o.cfg.role = "init" => post.nOut = 1
+      [] c = "refusedLogonResetsNothing" ->   \* a Logon that is refused (by the application, or because it fails the
+                                              \* session-level checks) is no agreement: nothing is reset
+            \* (refused = defective in one of these ways and not followed by the logon notification)
+            (IsIn(o) /\ m.t = "A" /\ NoResetConfigured(o.cfg) /\ ~flagOut /\ pre.inbuf = 0
+                /\ (m.app = "rejlogon" \/ m.bs # "ok" \/ m.cid # "ok" \/ (m.st # "ok" /\ o.cfg.checkLatency))
+                /\ ~(\E i \in DOMAIN o.cb : o.cb[i].k = "OnLogon")) =>
+                    post.ep = pre.ep
       [] c = "resetOnLogout" ->
             (o.cfg.resetOnLogout /\ IsIn(o) /\ m.t = "5" /\ Clean(m) /\ m.app = "ok"
                 /\ pre.st \in LoggedOnSt \cup {"logout"} /\ pre.inbuf = 0) =>
@@ -296,7 +310,7 @@ C07_Clause(c, aux, o) ==
                       post.nIn = m.newseq
 
 C07_Names == {"onlyAgreedResets", "continuity", "resetLogonSent", "resetLogonReceived", "echoDoesNotResetAgain", "resetFlagHonoured",
-              "resetAtTime", "echoOfTimedReset", "scheduleRollover",
+              "resetAtTime", "echoOfTimedReset", "scheduleRollover", "inSessionResetHonoured", "refusedLogonResetsNothing",
               "resetOnLogout", "resetOnDisconnect", "seqResetForwardOnly"}
 C07_Fails(aux, o) == {c \in C07_Names : ~C07_Clause(c, aux, o)}
 C07_Step(aux, o) == C07_Fails(aux, o) = {}
